@@ -213,6 +213,29 @@ def check_components(case, rec):
                               ref="vector", **sig)
                     ncompared += 1
 
+        # ---- norms of the vector results: Euclidean norm of the translation components (the rotations of a beam are not lengths)
+        for vname, injected, comps, k in vector_groups(ctx):
+            nname = vname + "_norm"
+            if not (nodeValues and injected is not None and want(nname)):
+                continue
+            cols = [i for i, c in enumerate(comps) if c[-1] in "xyz" and c[0] in "uva"] if sim == "beam" else list(range(injected.shape[1]))
+            if not cols:
+                continue
+            sig = mksig(ctx, base, nname, form, k)
+            done.add(nname)
+            rec.label(f"q:{sim}:{nname}")
+            val = query(ctx, rec, nname, nodeValues, sig)
+            if val is MISSING:
+                continue
+            c = np.asarray(val, float)
+            if not rec.require(c.shape == (N,), "result_shape", f"{ctx.kind} {ctx.types}: Result({nname!r}) has shape {c.shape}, expected ({N},)", **sig):
+                continue
+            ref = np.linalg.norm(injected[:, cols], axis=1)
+            rec.close(c - ref, np.abs(injected).max(), TOL, "vector_norm",
+                      f"{ctx.kind}: Result({nname!r}) is not the norm of the translation components of the {k} field "
+                      f"(first values {c[:3]} vs {ref[:3]})", **sig)
+            ncompared += 1
+
         # ---- tensor results and their components
         for tname, prefix, which in tensor_groups(ctx):
             T = MISSING
@@ -544,6 +567,25 @@ def check_conversion(case, rec):
         out = mesh.Get_Node_Values(values.copy())
         _const_check(rec, out, Nn, ncomp, layout, consts, f"{types}: mesh.Get_Node_Values of a constant {values.shape} element field",
                      dict(base, storage=storage, target="node", layout=layout, ambiguous="no"), mesh)
+        # a non-constant element field (a function of the element centroid, elements numbered group by group in
+        # Get_list_groupElem(dim) order as documented): each node gets the average over the elements around it
+        X = np.asarray(mesh.coord, float)
+        vals, acc, cnt = [], np.zeros(Nn), np.zeros(Nn)
+        for g in gm.main_groups(mesh):
+            conn = np.asarray(g.connect, int)
+            cen = X[conn].mean(axis=1)
+            f = 1.0 + 2.0 * cen[:, 0] - 3.0 * cen[:, 1] + 0.5 * cen[:, 2] + np.sin(5.0 * cen[:, 0])
+            vals.append(f)
+            for e in range(conn.shape[0]):
+                nn = np.unique(conn[e])
+                acc[nn] += f[e]
+                cnt[nn] += 1
+        v_e = np.concatenate(vals)
+        got = np.asarray(mesh.Get_Node_Values(v_e.copy()), float).ravel()
+        used = cnt > 0
+        rec.close(got[used] - acc[used] / cnt[used], float(np.abs(v_e).max()), 1e-12, "node_values_mean_of_neighbours",
+                  f"{types}: mesh.Get_Node_Values of a non-constant element field is not the average over the surrounding elements",
+                  **dict(base, storage="elems", target="node", layout="scalar1d", ambiguous="no"))
     else:
         if layout == "flat1d":
             simu = Simulations.Elastic(mesh, Models.Elastic.Isotropic(mesh.dim, E=2.0, v=0.25))
